@@ -16,6 +16,7 @@
 package zsimrt
 
 import (
+	_ "unsafe" // go:linkname
 	"fmt"
 	"hash"
 	"hash/fnv"
@@ -29,8 +30,9 @@ import (
 
 // G is a goroutine parked at a scheduling point, waiting for the driver.
 type G struct {
-	ID   int64  // dense goroutine number (order of creation among goroutines the driver has seen)
+	ID   int64  // stable identity: the creation ticket (see Spawn), or a dense number above 1<<32 for goroutines without one
 	raw  int64  // runtime goroutine id
+	seq  int64  // creation ticket (0: none)
 	Site string // scheduling point it is parked at
 	ch   chan struct{}
 }
@@ -53,6 +55,8 @@ var (
 	epoch  atomic.Uint64
 	parked []*G
 	dense  map[int64]int64
+	seqOf  map[int64]int64 // runtime goroutine id -> creation ticket
+	seqGen atomic.Int64
 	root   int64
 	hooks  Hooks
 
@@ -92,6 +96,8 @@ func Start(h Hooks) {
 	hooks = h
 	parked = nil
 	dense = map[int64]int64{}
+	seqOf = map[int64]int64{}
+	seqGen.Store(0)
 	root = Goid()
 	mu.Unlock()
 	epoch.Store(1)
@@ -124,20 +130,32 @@ func Parked() []*G {
 	mu.Lock()
 	ps := make([]*G, len(parked))
 	copy(ps, parked)
-	sort.Slice(ps, func(i, j int) bool { return ps[i].raw < ps[j].raw })
-	// Dense ids: raw goroutine ids are monotonic in creation order but may
-	// jump (per-P id caches are refilled in batches); number goroutines in
-	// the order of their raw ids the first time the driver sees them.
+	// Goroutines are identified by the ticket their creator drew (Spawn) when
+	// it executed the go statement / registered the timer callback: creators
+	// run one at a time, so tickets are reproducible. Runtime goroutine ids are
+	// not: the callbacks of several timers that expire at the same simulated
+	// instant are started by the runtime in an order that depends on its timer
+	// heap, which real-time timers of the process perturb.
 	for _, g := range ps {
 		if g.ID == 0 {
+			if g.seq != 0 {
+				g.ID = g.seq
+				continue
+			}
 			d, ok := dense[g.raw]
 			if !ok {
-				d = int64(len(dense) + 1)
+				d = int64(len(dense)+1) + 1<<32
 				dense[g.raw] = d
 			}
 			g.ID = d
 		}
 	}
+	sort.Slice(ps, func(i, j int) bool {
+		if ps[i].ID != ps[j].ID {
+			return ps[i].ID < ps[j].ID
+		}
+		return ps[i].raw < ps[j].raw
+	})
 	mu.Unlock()
 	return ps
 }
@@ -183,6 +201,7 @@ func Park(site string) {
 		mu.Unlock()
 		return
 	}
+	g.seq = seqOf[g.raw]
 	parked = append(parked, g)
 	n := hooks.Notify
 	mu.Unlock()
@@ -193,8 +212,49 @@ func Park(site string) {
 	<-g.ch
 }
 
-// Enter is the first statement of every instrumented goroutine.
+// Enter is the first statement of a goroutine without a creation ticket.
 func Enter(site string) { Park(site) }
+
+//go:linkname runtimeSimSelectSet runtime.simSelectSet
+func runtimeSimSelectSet(v uint64)
+
+// SetSelectSeed hands the choice among several ready cases of a select to the
+// simulation (0 gives it back to the runtime). The runtime side is a patched
+// copy of runtime/select.go in the build overlay.
+func SetSelectSeed(v uint64) { runtimeSimSelectSet(v) }
+
+// Spawn draws a creation ticket. It is called by the creator at the point of
+// the go statement (or of the registration of a timer callback).
+func Spawn() int64 {
+	if !active.Load() {
+		return 0
+	}
+	return seqGen.Add(1)
+}
+
+// EnterSeq is the first statement of every instrumented goroutine: it binds
+// the goroutine to the ticket its creator drew and parks.
+func EnterSeq(site string, seq int64) {
+	if !active.Load() {
+		return
+	}
+	if seq != 0 {
+		mu.Lock()
+		seqOf[Goid()] = seq
+		mu.Unlock()
+	}
+	Park(site)
+}
+
+// Spawned wraps a timer callback: the ticket is drawn now, by the goroutine
+// that registers the callback.
+func Spawned(site string, f func()) func() {
+	seq := Spawn()
+	return func() {
+		EnterSeq(site, seq)
+		f()
+	}
+}
 
 // Pre is an optional scheduling point placed before an operation that may
 // block. It returns a token for Post.
